@@ -332,6 +332,7 @@ func runC03(p *Prog, r *Report, tier string) {
 	}
 
 	checkInfoElementImmutable(p, r, "R-OWNER.info-element")
+	checkSpecifierFreshness(p, r, "R-EXACT.field-specifier")
 	// (7) the decoded set length bounds the set body
 	var hdrDecode *ssa.Call
 	eachInstr(dp, func(in ssa.Instruction) {
@@ -695,4 +696,122 @@ func unboundedSize(p *Prog, v ssa.Value, depth int) string {
 		return ""
 	}
 	return fmt.Sprintf("size value %s (%T) not recognised as bounded", v.Name(), v)
+}
+
+// decodeTargetCells is decodeTargets without the restriction to local allocations: the cells (local Alloc or captured
+// FreeVar) whose addresses are handed to util.Decode, in order.
+func decodeTargetCells(c *ssa.Call) []ssa.Value {
+	if c == nil || len(c.Call.Args) < 3 {
+		return nil
+	}
+	sl, ok := c.Call.Args[2].(*ssa.Slice)
+	if !ok {
+		return nil
+	}
+	arr, ok := sl.X.(*ssa.Alloc)
+	if !ok {
+		return nil
+	}
+	out := map[int64]ssa.Value{}
+	max := int64(-1)
+	for _, ref := range refs(arr) {
+		ia, ok := ref.(*ssa.IndexAddr)
+		if !ok {
+			continue
+		}
+		i, ok := constInt(ia.Index)
+		if !ok {
+			continue
+		}
+		for _, r2 := range refs(ia) {
+			if st, ok := r2.(*ssa.Store); ok {
+				v := stripChange(st.Val)
+				if mi, ok := v.(*ssa.MakeInterface); ok {
+					v = stripChange(mi.X)
+				}
+				out[i] = v
+				if i > max {
+					max = i
+				}
+			}
+		}
+	}
+	var res []ssa.Value
+	for i := int64(0); i <= max; i++ {
+		res = append(res, out[i])
+	}
+	return res
+}
+
+// checkSpecifierFreshness: every value of one template field specifier that reaches the registry lookup or the
+// placeholder element (element id, enterprise number, field length) is defined during the decoding of THIS specifier:
+// it is a constant, or it is loaded from a variable that is local to the field reader (fresh, zero-initialised per
+// call) or that is assigned / decoded into on every path to the use. A variable that outlives one call and is not
+// re-assigned on some path carries the previous field's value into this one.
+func checkSpecifierFreshness(p *Prog, r *Report, rule string) {
+	var fr *ssa.Function
+	for _, f := range p.RepoFns {
+		if keyInPkg(fnKey(f), "pkg/collector") && len(callsTo(f, "pkg/registry.GetInfoElementFromID")) > 0 {
+			fr = f
+		}
+	}
+	if fr == nil {
+		r.Undecided(rule, "anchor: template field reader", "pkg/collector/process.go", "not found")
+		return
+	}
+	definedBefore := func(cell ssa.Value, at ssa.Instruction) bool {
+		if al, ok := cell.(*ssa.Alloc); ok && al.Parent() == fr {
+			return true
+		}
+		found := false
+		eachInstr(fr, func(in ssa.Instruction) {
+			if found || !dominates(in, at) {
+				return
+			}
+			switch x := in.(type) {
+			case *ssa.Store:
+				if x.Addr == cell {
+					found = true
+				}
+			case *ssa.Call:
+				if calleeName(&x.Call) == "pkg/util.Decode" {
+					for _, t := range decodeTargetCells(x) {
+						if t == cell {
+							found = true
+						}
+					}
+				}
+			}
+		})
+		return found
+	}
+	n := 0
+	eachInstr(fr, func(in ssa.Instruction) {
+		c, ok := in.(*ssa.Call)
+		if !ok {
+			return
+		}
+		name := calleeName(&c.Call)
+		if name != "pkg/registry.GetInfoElementFromID" && name != "pkg/entities.NewInfoElement" {
+			return
+		}
+		for i, a := range c.Call.Args {
+			v := stripChange(a)
+			if cv, ok := v.(*ssa.Convert); ok {
+				v = stripChange(cv.X)
+			}
+			u, ok := v.(*ssa.UnOp)
+			if !ok || u.Op != token.MUL {
+				continue
+			}
+			n++
+			cell := u.X
+			r.Check(definedBefore(cell, in), rule, fmt.Sprintf("%s: argument %d of %s #%d comes from this field specifier", fnKey(fr), i, name, n), p.instrPos(in),
+				"a variable local to the field reader, or assigned / decoded into on every path to the use",
+				"the value is read from a variable that outlives one field and is not assigned on this path: the previous field's value (e.g. its enterprise number) is used for this field, so the delivered field does not match the wire", true)
+		}
+	})
+	if n < 4 {
+		r.Undecided(rule, "anchor: variable arguments of the registry lookup / placeholder constructor", p.pos(fr.Pos()), fmt.Sprintf("only %d found", n))
+	}
 }
